@@ -232,13 +232,10 @@ def fam_sam(rnd, n: int):
 def fam_cov(rnd, n: int):
     """weighted coverage (monotone submodular): player i covers a random non-empty set of items"""
     m = rnd.randint(n, 2 * n + 1)
-    w = [F(rnd.randint(1, 6), rnd.choice([1, 1, 2, 4])) for _ in range(m)]
+    w = [F(rnd.randint(4, 24), 4) for _ in range(m)]                 # every item ≥ 1, so every singleton ≥ 1
     cov = []
     for _ in range(n):
-        s = 0
-        while s == 0 or sum(w[j] for j in range(m) if s >> j & 1) < 1:
-            s = rnd.randrange(1, 2 ** m)
-        cov.append(s)
+        cov.append(rnd.randrange(1, 2 ** m))
     v = []
     for c in range(2 ** n):
         u = 0
